@@ -175,7 +175,7 @@ def _gen(ctx):
         yield dict(kind="walk", k=k, r=r, q=rng.randrange(k), sq=int(rng.random() < 0.5), iso=int(rng.random() < 0.5),
                    lam=rng.randint(0, 64), target=rng.choice(["current", 0, 64, rng.randint(0, 64), rng.randint(0, 64), "attainable", "attainable"]),
                    seed=rng.randrange(10 ** 6))
-    for (k, r) in ([(11, 1), (12, 1), (13, 0), (16, 1), (36, 0)] if ctx.tier == "quick" else [(11, 0), (11, 1), (12, 1), (13, 0), (13, 1), (16, 1), (20, 1), (36, 0), (36, 1)]):
+    for (k, r) in ([(11, 1), (12, 1), (13, 0), (16, 1), (36, 0)] if ctx.tier == "quick" else [(11, 0), (11, 1), (12, 1), (13, 0), (13, 1), (16, 1), (36, 0)]):
         for (sq, iso) in ((1, 0), (1, 1), (0, 1)):
             yield dict(kind="rrt", k=k, r=r, q=rng.randrange(k), sq=sq, iso=iso, lam=rng.randint(0, 64), seed=rng.randrange(10 ** 6))
             yield dict(kind="walk", k=k, r=r, q=rng.randrange(k), sq=sq, iso=iso, lam=rng.choice([0, 64, rng.randint(0, 64)]),
